@@ -249,6 +249,14 @@ def run(facts, tier):
                 ctors = [n for n in find(body, lambda n: n.get("k") == "Call" and (n["f"].get("path") or {}).get("def") == f"{NUM}::Float")]
                 hashes = [c for c in callees(body) if c.endswith("Hash>::hash") or c.endswith("Hash::hash")]
                 ok = (bool(ctors) or any("from_dec_str" in c for c in callees(body))) and bool(hashes)
+                if not ok:
+                    # the same route through a shared helper: the arm calls a first-party function that the Float arm calls too
+                    fcs = candidates(mh["arms"], val(facts, NUM, "Float"))
+                    fbody = mh["arms"][fcs[-1][0]]["body"] if fcs and fcs[-1][1] == "sure" else None
+                    shared = {c for c in callees(fbody) if c.startswith("jaq_json::")} & {c for c in callees(body) if c.startswith("jaq_json::")} if fbody else set()
+                    ok = bool(shared) or (any("from_dec_str" in c for c in callees(body)) and bool(hashes))
+                    if shared:
+                        t4.notes.append(f"hash of {k} shares {sorted(shared)} with the float arm")
             if ok and k == "BigInt":
                 conds = [callees(n["c"]) for n in find(body, lambda n: n.get("k") == "If")]
                 flat = [c.split("::")[-1] for cs_ in conds for c in cs_]
